@@ -248,7 +248,8 @@ P("C13", "proof", [K_SOURCES["idle"]], bounds="both cases")
 P("C14", "proof", K_LC + K_LC2 + [K_LOOP["it"]], bounds="<= 2 foreign set entries; 3 polled events",
   outside="composition over histories")
 P("C15", "proof", K_LC + [K_GEN["exact"], K_GEN["steps"]], bounds="1 step from any invariant state; 3 steps for Generic",
-  outside="OOM; composition")
+  outside="allocation failure; batches of more than one event for the error-reporting obligations (one-event batch with the loop-exit "
+          "assumption; the per-iteration obligations hold from an arbitrary loop-head state); errors raised by before_sleep")
 P("C16", "proof", [K_GEN["steps"], K_GEN["exact"], K_SYS["table"]] + K_GEN_DROP, bounds="1 fd, 3 steps",
   outside="fd numbers reused by the OS after close; composition over histories")
 P("C17", "proof", [K_IO["nb"], K_IO["iod"]], bounds="all flag/readiness values",
@@ -261,7 +262,8 @@ K_TR_IND = [H("k_c18_ind_" + sh, "transient", "inductive step from ANY state of 
             for sh in ["keep", "register", "disable", "disabled", "remove", "replace", "none"]]
 P("C18", "proof", K_TR_IND + [K_TR["3"], K_TR["e3"], K_TR["noop"], K_TR["4"], K_TR["5"]], bounds="3 operations (quick), 4-5 (thorough)",
   outside="fd-backed children are represented by the mock child (a double unregister is ENOENT for Generic: shown natively); "
-          "two changes without an intervening re-registration; replace() on an empty wrapper")
+          "more than two changes without an intervening re-registration in the k-step harnesses (the inductive family covers one "
+          "operation from ANY invariant state, incl. states with a change pending)")
 SIG_FNS = ["Signals::new", "Signals::add_signals", "Signals::remove_signals", "Signals::set_signals", "<Signals as Drop>::drop",
            "<Signals as EventSource>::process_events (+closure)"]
 K_SIG = {
@@ -304,7 +306,7 @@ M_DE = {
 H_FN = ["LoopHandle::remove", "LoopHandle::disable", "LoopHandle::update", "LoopHandle::enable",
         "LoopHandle::register_dispatcher", "LoopHandle::insert_idle", "io::Async::new", "io::LoopInner::kill"]
 M_H = {
-    "remove": M("handle_remove", OB.ob_handle_remove, OB.ob_handle_remove.__doc__, H_FN[:1], "all paths (loop-free)", replay=["c01_routing_scenarios", "c16_removed_in_callback", "c08_reentrancy_scenarios"]),
+    "remove": M("handle_remove", OB.ob_handle_remove, OB.ob_handle_remove.__doc__, H_FN[:1], "all paths (loop-free)", replay=["c06_removal_scenarios", "c01_routing_scenarios", "c16_removed_in_callback", "c08_reentrancy_scenarios"]),
     "disable": M("handle_disable", OB.ob_handle_disable, OB.ob_handle_disable.__doc__, H_FN[1:2], "all paths (loop-free)", replay=["c01_routing_scenarios", "d3_pending_action_error_path", "c08_reentrancy_scenarios"]),
     "update": M("handle_update", OB.ob_handle_update, OB.ob_handle_update.__doc__, H_FN[2:3], "all paths (loop-free)", replay=["c01_routing_scenarios", "d3_pending_action_error_path", "c05_timer_scenarios"]),
     "enable": M("handle_enable", OB.ob_handle_enable, OB.ob_handle_enable.__doc__, H_FN[3:4], "all paths (loop-free)", replay=["c01_routing_scenarios", "c05_timer_scenarios"]),
@@ -346,7 +348,7 @@ M_IO = {
     "drop": M("async_drop", OB.ob_async_drop, OB.ob_async_drop.__doc__, ["<Async as Drop>::drop", "<LoopInner as IoLoopInner>::kill", "Async::into_inner"],
               "all paths", replay=["d5_async_adapter_registration", "c17_async_io", "c15_failed_registration"]),
     "io": M("async_io", OB.ob_async_io, OB.ob_async_io.__doc__, ["<Readable as Future>::poll", "<Writable as Future>::poll", "Async::poll_read",
-            "Async::poll_read_vectored", "Async::poll_write", "Async::poll_write_vectored", "Async::poll_flush"], "all paths", replay=["c17_async_io"]),
+            "Async::poll_read_vectored", "Async::poll_write", "Async::poll_write_vectored", "Async::poll_flush", "Async::register_waker"], "all paths", replay=["c17_async_io"]),
 }
 
 M_TM = {
@@ -360,6 +362,9 @@ M_DELEG = M("delegation", OB.ob_delegation, OB.ob_delegation.__doc__, ["PingSour
             "all paths (loop-free)", replay=["c01_routing_scenarios", "p_chan_stress"])
 M_TOK = M("token", OB.ob_token, OB.ob_token.__doc__, TOKEN_FNS, "full 64-bit key space (bit-vector validity queries, no unrolling)",
           replay=["c01_routing_scenarios"])
+M_SLOTS = M("slots_never_deallocated", OB.ob_slots_never_deallocated, OB.ob_slots_never_deallocated.__doc__,
+            ["every function body of the crate (call-site scan)", "SourceList::vacant_entry"], "all call sites of the MIR dump; vacant_entry: all paths, scan loop unrolled twice",
+            replay=["c15_failed_registration", "c06_removal_scenarios"])
 M_TM["stale"] = M("timer_stale", OB.ob_timer_stale, OB.ob_timer_stale.__doc__, ["<Timer as EventSource>::process_events"], "all paths",
                    replay=["d4_timer_rearm_in_flight"])
 from mirsym import pqueries as PQ   # noqa: E402
@@ -385,7 +390,7 @@ def addm(pid, obs):
 
 
 addm("C01", [M_DE["disp1"], M_DE["fsub"], M_TOK, M_TM["timer"]])
-addm("C20", [M_TOK])
+addm("C20", [M_TOK, M_SLOTS])
 addm("C02", [M_DE["disp1"], M_CH["process"], M_EX["process"], M_POLL])
 addm("C03", [M_PING["ping"], P_Q["ping"]])
 P("C04", "model_checking", [], [M_CH["send"], M_CH["process"], M_PING["ping"], P_Q["chan"]],
@@ -393,7 +398,7 @@ P("C04", "model_checking", [], [M_CH["send"], M_CH["process"], M_PING["ping"], P
   outside="std::sync::mpsc itself (linearizable FIFO, disconnect when the last sender is dropped; try_recv on a zero-capacity "
           "channel pairs with a blocked sender); weak memory; more than one sender thread in the interleaving query")
 addm("C05", [M_TM["wheel"], M_TM["timer"], M_TM["stale"], M_POLL])
-addm("C06", [M_H["remove"], M_H["disable"], M_H["update"], M_H["enable"], M_DE["rm3"], M_TOK])
+addm("C06", [M_H["remove"], M_H["disable"], M_H["update"], M_H["enable"], M_DE["rm3"], M_TOK, M_SLOTS])
 addm("C07", [M_H["disable"], M_H["enable"], M_DE["pa2"], M_DE["fsub"], M_DE["rm3"], M_TM["timer"], M_DELEG])
 addm("C08", [M_DE["re1"], M_H["re2"], M_EX["process"], M_DE["pa2"], M_H["idles"], M_DE["rm3"], M_H["remove"]])
 addm("C09", [M_DE["pa2"], M_DE["pav"], M_H["disable"], M_H["update"]])
@@ -408,7 +413,7 @@ P("C11", "model_checking", [], [M_L["run"], M_L["block_on"], M_L["signal"], P_Q[
 addm("C12", [M_DE["lc2"], M_TM["wheel"], M_TM["timer"], M_POLL])
 addm("C13", [M_H["idles"], M_H["insidle"]])
 addm("C14", [M_DE["lc2"], M_DE["fsub"], M_DE["rm3"]])
-addm("C15", [M_H["reg1"], M_IO["new"], M_DE["err1"], M_DE["err2"], M_DE["pa2"]])
+addm("C15", [M_H["reg1"], M_IO["new"], M_DE["err1"], M_DE["err2"], M_DE["pa2"], M_SLOTS])
 addm("C16", [M_IO["drop"], M_IO["new"], M_DE["rm3"], M_DELEG])
 addm("C17", [M_IO["io"], M_IO["new"], M_IO["drop"]])
 for _p in ("C03",):
